@@ -190,6 +190,14 @@ class SymbolTable:
             return True
         return self._parent.is_local_python_name(name)
 
+    def local_python_names(self, kinds: frozenset[LocalType]) -> set[str]:
+        """Return the Python names of the locals of the given kinds in this frame and
+        its enclosing frames up to the nearest context boundary (the function)."""
+        names = {e.munged for e in self._table.values() if e.context in kinds}
+        if self._is_context_boundary or self._parent is None:
+            return names
+        return names | self._parent.local_python_names(kinds)
+
     @contextlib.contextmanager
     def new_frame(self, name: str, is_context_boundary: bool):
         """Context manager for creating a new stack frame."""
@@ -300,6 +308,12 @@ class GeneratorContext:
     @property
     def recur_point(self) -> RecurPoint:
         return self._recur_points[-1]
+
+    @property
+    def is_in_loop(self) -> bool:
+        """Return True if the nearest enclosing recur point is a `loop*`, i.e. code is
+        being generated for the body of a loop of the current Python function."""
+        return bool(self._recur_points) and self._recur_points[-1].type == RecurType.LOOP
 
     @contextlib.contextmanager
     def new_recur_point(
@@ -2275,13 +2289,73 @@ def _fn_to_py_ast(
     """Return a Python AST Node for a `fn` expression."""
     assert node.op == NodeOp.FN
     if len(node.arities) == 1:
-        return __single_arity_fn_to_py_ast(
+        fn_ast = __single_arity_fn_to_py_ast(
             ctx, node, next(iter(node.arities)), def_name=def_name, meta_node=meta_node
         )
     else:
-        return __multi_arity_fn_to_py_ast(
+        fn_ast = __multi_arity_fn_to_py_ast(
             ctx, node, node.arities, def_name=def_name, meta_node=meta_node
         )
+
+    if def_name is None and ctx.is_in_loop:
+        return __fn_closed_over_current_locals(ctx, fn_ast)
+    return fn_ast
+
+
+def __fn_closed_over_current_locals(
+    ctx: GeneratorContext, fn_ast: GeneratedPyAST[ast.expr]
+) -> GeneratedPyAST[ast.expr]:
+    """Return the Python AST for a function created inside a `loop*` body such that it
+    closes over the values its free locals have right now.
+
+    A `loop*` is a Python `while` loop which re-assigns the same Python variables on
+    every iteration, and a Python closure captures variables rather than values. The
+    function is therefore defined inside a factory function which receives the
+    current values of the locals as arguments, so functions created on different
+    iterations do not all see the values of the last one."""
+    candidates = ctx.symbol_table.local_python_names(
+        frozenset({LocalType.LET, LocalType.LOOP, LocalType.CATCH})
+    )
+    loaded = {
+        n.id
+        for root in chain(fn_ast.dependencies, [fn_ast.node])
+        for n in ast.walk(root)
+        if isinstance(n, ast.Name) and isinstance(n.ctx, ast.Load)
+    }
+    captured = sorted(candidates & loaded)
+    if not captured:
+        return fn_ast
+
+    factory_name = genname("closure")
+    return GeneratedPyAST(
+        node=ast.Call(
+            func=ast.Name(id=factory_name, ctx=ast.Load()),
+            args=[ast.Name(id=name, ctx=ast.Load()) for name in captured],
+            keywords=[],
+        ),
+        dependencies=[
+            ast_FunctionDef(
+                name=factory_name,
+                args=ast.arguments(
+                    posonlyargs=[],
+                    args=[ast.arg(arg=name, annotation=None) for name in captured],
+                    kwarg=None,
+                    vararg=None,
+                    kwonlyargs=[],
+                    defaults=[],
+                    kw_defaults=[],
+                ),
+                body=list(
+                    chain(
+                        map(statementize, fn_ast.dependencies),
+                        [ast.Return(value=fn_ast.node)],
+                    )
+                ),
+                decorator_list=[],
+                returns=None,
+            )
+        ],
+    )
 
 
 @_with_ast_loc_deps
